@@ -60,6 +60,34 @@ class Wall(nn.Module):
         return torch.cat([x - self.T, self.big * torch.clamp(x - self.c, min=0) ** 2, ]).reshape(2, 1)
 
 
+class Curved(nn.Module):
+    """r = atan(k x) (+ a weak linear anchor): from |x0| >> 1/k the undamped step overshoots, and the first accepted
+    trial after the rejections has a mediocre step quality (the 'successful' middle branch of the strategies)."""
+
+    def __init__(self, k, x0, group):
+        super().__init__()
+        self.k, self.group = k, group
+        if group:
+            self.p0 = pp.Parameter(pp.so3(torch.tensor([0., 0., x0], dtype=F64)).Exp())
+        else:
+            self.p0 = nn.Parameter(torch.tensor([x0], dtype=F64))
+        self.kinds = ["SO3" if group else "R"]
+
+    def plist(self):
+        return [self.p0]
+
+    def forward(self):
+        x = self.p0.Log().tensor()[..., 2:3] if self.group else self.p0
+        return torch.cat([torch.atan(self.k * x), 0.05 * x]).reshape(2, 1)
+
+
+def curved_spec(rng):
+    k = float(10.0 ** rng.uniform(-0.3, 1.0))
+    x0 = float(rng.uniform(1.2, 2.8)) * float(rng.choice([-1.0, 1.0]))
+    group = bool(rng.integers(2))
+    return dict(model=Curved(k, x0, group), data=(), target=None, desc=f"curved/{'SO3' if group else 'R'}/k={k:.3g}/x0={x0:.3g}", nres=1)
+
+
 def loss_ref(opt, model, data, target):
     """Robust loss at the current parameters, recomputed outside RobustModel.loss."""
     with torch.no_grad():
@@ -124,6 +152,8 @@ def check_strategy(ck, name, st, ev, regime, wit):
         lo, hi = st.strategy.min, st.strategy.max
         r_want, d_want = max(lo, min(r_want, hi)), max(lo, min(d_want, hi))
         ck.mark(f"strategy/TrustRegion/{tag}")
+        if tag != "unsuccessful" and b["down"] != st.strategy.down:
+            ck.mark(f"strategy/TrustRegion/{tag}_after_unsuccessful")
         ck.ratio("strategy", f"TrustRegion/{tag}", abs(a["radius"] - r_want), 1e-12 * abs(r_want), entry, "trust_region_radius_not_as_documented",
                  dict(wit, quality=q, before=b, after=a, want_radius=r_want))
         ck.ratio("strategy", f"TrustRegion/{tag}", abs(a["down"] - d_want), 1e-12 * abs(d_want), entry, "trust_region_down_factor_not_as_documented",
@@ -315,6 +345,17 @@ def run(ck):
         cfg["damping"] = float(10.0 ** rng.uniform(-2, 1))
         cfg["reject"] = int(rng.integers(0, 17))
         run_history(ck, rng, (ck.shard, hid), spec, cfg, nsteps=int(rng.integers(2, 6)), wall=True)
+    # ---- curved models: accepted trials of mediocre quality after rejected ones (middle branch of the strategies)
+    for i in range(nh * 4):
+        hid += 1
+        spec = curved_spec(rng)
+        cfg = lm_cfg(rng)
+        cfg["kernel"] = "none"
+        cfg["strategy"] = ["TrustRegion", "TrustRegion", "Adaptive"][i % 3]
+        cfg["damping"] = float(10.0 ** rng.uniform(-4, 0))
+        cfg["tight_bounds"] = False
+        cfg["reject"] = int(rng.integers(4, 17))
+        run_history(ck, rng, (ck.shard, hid), spec, cfg, nsteps=int(rng.integers(3, 9)), wall=True)
     # ---- fault enumeration: the solver raises at the j-th solve of the run
     swept = 0
     for i in range(4 if thorough else 2):
@@ -340,7 +381,9 @@ def run(ck):
     ck.require("faults/swept", "protocol/solver_raised", "increasing_trials/k=0", "increasing_trials/0<k<reject", "increasing_trials/k=reject",
                "increasing_trials/k=reject+1", "history/GN", "history/LM",
                "strategy/Adaptive/very_successful", "strategy/Adaptive/unsuccessful", "strategy/TrustRegion/very_successful",
-               "strategy/TrustRegion/unsuccessful", "strategy/Adaptive/bound_binds", "strategy/TrustRegion/bound_binds")
+               "strategy/TrustRegion/unsuccessful", "strategy/Adaptive/bound_binds", "strategy/TrustRegion/bound_binds",
+               "strategy/Adaptive/successful", "strategy/TrustRegion/successful", "strategy/TrustRegion/successful_after_unsuccessful",
+               "strategy/TrustRegion/very_successful_after_unsuccessful")
     ck.floor("protocol", 30)
     ck.floor("restore", 10)
     ck.floor("strategy", 20)
